@@ -219,3 +219,14 @@ Proof.
   exists rec, outs, st'. split; [exact E|]. split; [exact Es|].
   unfold payload_of, pkgs_chunks in Hok. cbn [map concat app tnr tx0] in Hok. rewrite ?app_nil_r in Hok. exact Hok.
 Qed.
+
+(* the default configuration negotiates password encryption for every kind of connection description (finite table
+   regenerated from the code on every run; 2^10 combinations of the settings of tds.Info) *)
+Lemma default_config_encrypts_b : forallb (fun p => with_encryption (snd p)) g_default_encrypt = true.
+Proof. vm_compute. reflexivity. Qed.
+Lemma default_config_encrypts : forall mask e, In (mask, e) g_default_encrypt -> with_encryption e = true.
+Proof.
+  intros mask e H. pose proof default_config_encrypts_b as B. rewrite forallb_forall in B. exact (B (mask, e) H).
+Qed.
+Lemma default_config_table_complete : map fst g_default_encrypt = map Z.of_nat (seq 0 1024).
+Proof. vm_compute. reflexivity. Qed.
